@@ -47,13 +47,13 @@ def run(ctx):
     ]
     ctx.lean(props=["Props.C02"], drivers=["drv_c02"])
     ctx.harness("./cmd/c02", overlay=OVERLAY)
-    ctx.diff(area="conv", driver="drv_c02", n={"quick": 120000, "thorough": 4000000},
+    ctx.diff(area="conv", driver="drv_c02", n={"quick": 300000, "thorough": 6000000},
              trivial=lambda l, o: False, tagger=_tag,
              theorem="C02.* (model = specification: exact value, truncation, saturation, grammar); impl != model on "
                      "this input")
-    ctx.diff(area="f64", driver="drv_c02", n={"quick": 80000, "thorough": 3000000},
+    ctx.diff(area="f64", driver="drv_c02", n={"quick": 200000, "thorough": 5000000},
              trivial=lambda l, o: False, tagger=_tag,
              theorem="the binary64 model GoSem.F64 differs from the hardware on this operation",
              what="validation of the float model that the C02 float theorems are stated over")
-    ctx.impl_oracle("glue", n={"quick": 6000, "thorough": 200000},
+    ctx.impl_oracle("glue", n={"quick": 8000, "thorough": 300000},
                     label="fmt/json/yaml/text/Scan/big.Float renderings equal math/big's and load back identically")
